@@ -26,6 +26,7 @@ import (
 
 	"nvharness/lib/c12sched"
 	"nvharness/lib/c12stress"
+	"nvharness/lib/c12worker"
 	"nvharness/lib/corr"
 	"nvharness/lib/sched"
 )
@@ -328,7 +329,15 @@ func (r *runner) quiesce(skip *sched.Task) (rets []string, parked int, ok bool) 
 	var done []bool
 	for round := 0; ; round++ {
 		if live {
-			if err := c12sched.Settle(10 * time.Second); err != nil {
+			if err := c12sched.Settle(c12worker.SettleTimeout()); err != nil {
+				if strings.Contains(err.Error(), "no quiescent snapshot") {
+					// a verdict, not a harness error: some call keeps running for ever (a wait loop without Wait, a retry
+					// loop that cannot end) — everything else is parked or done and it still does not come to rest
+					r.hit("quiescence", "never-quiesces", "the queue's callers never come to rest: "+strings.SplitN(err.Error(), "\n", 2)[0]+" — "+lastFrames(err.Error()))
+					r.dead = "never-quiesces"
+					c12worker.Poisoned = true
+					return nil, 0, false
+				}
 				r.dead = "harness:" + strings.SplitN(err.Error(), "\n", 2)[0]
 				return nil, 0, false
 			}
@@ -923,6 +932,20 @@ func (r *runner) priLine(f []string, l string) (out string) {
 
 func init() { c12sched.RetryFrames = []string{"AddReqAnyway", "AddAnyway", "AddCtrlAnyway"} }
 
+// lastFrames: the neptune frames of the goroutine that was still active (from the quiescence error text).
+func lastFrames(e string) string {
+	var fr []string
+	for _, l := range strings.Split(e, "\n") {
+		if strings.Contains(l, "github.com/pinealctx/neptune/") && !strings.HasPrefix(l, "\t") {
+			fr = append(fr, strings.TrimSpace(l))
+		}
+	}
+	if len(fr) > 3 {
+		fr = fr[:3]
+	}
+	return strings.Join(fr, " < ")
+}
+
 // RunCase executes one script. prop ("C12" / "C13") prefixes the monitor keys.
 func RunCase(prop string, c corr.Case) (res corr.Result) {
 	if len(c.Lines) == 1 && strings.HasPrefix(c.Lines[0], "stress ") {
@@ -954,6 +977,9 @@ func RunCase(prop string, c corr.Case) (res corr.Result) {
 			reset()
 		}
 		out := r.line(l)
+		if out == "harness-error" && r.dead == "never-quiesces" {
+			out = "never-quiesces"
+		}
 		if strings.HasPrefix(out, "aborted:harness") || out == "harness-error" {
 			fmt.Fprintln(os.Stderr, "harness error:", r.dead, "in", c.Lines)
 			os.Exit(2)
@@ -979,9 +1005,9 @@ func (r *runner) cleanup() {
 	if r.cancel != nil {
 		r.cancel() // WaitClose / WaitClear callers a defective Close left behind
 	}
-	if r.lq != nil && r.dead != "panic" {
+	if r.lq != nil && r.dead != "panic" && r.dead != "never-quiesces" {
 		r.lq.close()
-		_ = c12sched.Settle(10 * time.Second)
+		_ = c12sched.Settle(c12worker.SettleTimeout())
 		for _, t := range r.tasks {
 			if d, _ := t.Done(); !d { // somebody is still parked beside a closed queue (already reported by the monitor)
 				wakeAllForCleanup(r.lq)
@@ -992,5 +1018,5 @@ func (r *runner) cleanup() {
 	if r.pq != nil {
 		close(r.quit)
 	}
-	_ = c12sched.Settle(10 * time.Second)
+	_ = c12sched.Settle(c12worker.SettleTimeout())
 }
